@@ -241,6 +241,13 @@ class ContractDB:
                     self.assumptions.append(c.args[0].value)
                 elif n == "load_class":
                     self.load_classes.append(c.args[0].value)
+                elif n == "codec_pair":
+                    kw = {k.arg: k.value.value for k in c.keywords}
+                    from . import models as _m
+                    self.externals[kw["enc"]] = _m.make_codec_enc(c.args[0].value)
+                    self.externals[kw["dec"]] = _m.make_codec_dec(c.args[0].value)
+                    self.assumptions.append(f"codec pair {c.args[0].value}: {kw['dec']}({kw['enc']}(v)) == v for every value v, and {kw['dec']} accepts whatever "
+                                            f"{kw['enc']} produced (dependency, assumed); the encoded bytes are otherwise opaque")
                 elif n == "external_class":
                     self.externals.setdefault("__classes__", set()).add(c.args[0].value)
             elif isinstance(node, ast.FunctionDef):
